@@ -115,6 +115,48 @@ Definition proxy_series_labels (exts : list labels) (drop : list str) (ms : list
                                       (queried ms exts))))
   end.
 
+(* ---- the object-storage store gateway (BucketStore) over blocks = (external labels, stored series) ---- *)
+Definition ext_names_kept (drop : list str) (ext : labels) : list str :=
+  map fst (filter (fun p => negb (existsb (str_eqb (fst p)) drop)) ext).
+
+(* BucketStore.LabelNames, one block: without series matchers the index-header names merged with
+   the external names; otherwise the names on the (presented) series the matchers select *)
+Definition block_names (drop : list str) (ms : list matcher) (b : labels * list labels) : list str :=
+  match ext_loop mname mmatch ms (fst b) with
+  | None => []
+  | Some [] => merge2 (sset (concat (map (map fst) (snd b)))) (ext_names_kept drop (fst b))
+  | Some kept => sset (concat (map (fun sl => map fst (present_bucket (fst b) drop sl)) (filter (selected kept) (snd b))))
+  end.
+Definition bucket_label_names (blocks : list (labels * list labels)) (drop : list str) (ms : list matcher) : list str :=
+  merge_slices (map (block_names drop ms) blocks).
+
+Definition stored_values (label : str) (stored : list labels) : list str :=
+  concat (map (fun l => match lfind l label with Some x => [x] | None => [] end) stored).
+
+(* BucketStore.LabelValues, one block. [has_name_eq]: the request has a __name__="..." matcher
+   (then no `label != ""` matcher is added) *)
+Definition block_values (has_name_eq : bool) (ms : list matcher) (label : str) (b : labels * list labels) : list str :=
+  match ext_loop mname mmatch ms (fst b) with
+  | None => []
+  | Some [] =>
+      let res := sset (stored_values label (snd b)) in
+      if is_empty_str (lget (fst b) label) then res else merge2 res [lget (fst b) label]
+  | Some kept =>
+      let extra := negb has_name_eq && negb (lhas (fst b) label) in
+      let sel := filter (fun sl => selected kept sl && (negb extra || negb (is_empty_str (lget sl label)))) (snd b) in
+      sset (concat (map (fun sl => let v := lget (extend sl (fst b)) label in
+                                   if is_empty_str v then [] else [v]) sel))
+  end.
+Definition bucket_label_values (has_name_eq : bool) (blocks : list (labels * list labels)) (drop : list str)
+    (ms : list matcher) (label : str) : list str :=
+  if existsb (str_eqb label) drop then []
+  else merge_slices (map (block_values has_name_eq ms label) blocks).
+
+(* the proxy in front of one bucket store: pruned when none of the announced label sets (the
+   blocks' external labels) matches the selectors *)
+Definition bucket_queried (blocks : list (labels * list labels)) (ms : list matcher) : bool :=
+  label_sets_match mname mmatch ms (map fst blocks).
+
 (* ---- observables ---- *)
 Record obs := MkObs { o_series : option (list labels); o_names : list str; o_values : list str }.
 
@@ -122,6 +164,8 @@ Inductive case :=
 | CLabels (stored : list labels) (exts : list labels) (drop : list str) (ms : list matcher) (label : str)
           (stores : list obs)   (* each TSDB store asked directly: Series label sets sorted+distinct *)
           (proxy : obs)         (* the proxy in front of them *)
+| CBucket7 (blocks : list (labels * list labels)) (drop : list str) (ms : list matcher) (has_name_eq : bool)
+           (label : str) (bstore : obs) (bproxy : obs)
 | CNop7.
 
 Definition labels_eqb : labels -> labels -> bool := list_eqb (pair_eqb str_eqb str_eqb).
@@ -136,11 +180,23 @@ Definition model_proxy (stored : list labels) (exts : list labels) (drop : list 
   MkObs (proxy_series_labels exts drop ms stored)
         (proxy_label_names exts drop ms stored) (proxy_label_values exts drop ms label stored).
 
+Definition model_bucket (blocks : list (labels * list labels)) (drop : list str) (ms : list matcher) (hne : bool) (label : str) : obs :=
+  MkObs (Some (lsort_set (bucket_series_labels blocks drop ms)))
+        (bucket_label_names blocks drop ms) (bucket_label_values hne blocks drop ms label).
+Definition model_bucket_proxy (blocks : list (labels * list labels)) (drop : list str) (ms : list matcher) (hne : bool) (label : str) : obs :=
+  if bucket_queried blocks ms
+  then MkObs (match ms with [] => None | _ => Some (lsort_set (bucket_series_labels blocks drop ms)) end)
+             (bucket_label_names blocks drop ms) (bucket_label_values hne blocks drop ms label)
+  else MkObs (match ms with [] => None | _ => Some [] end) [] [].
+
 Definition corr_ok (c : case) : bool :=
   match c with
   | CLabels stored exts drop ms label stores proxy =>
       list_eqb obs_eqb (map (model_store stored drop ms label) exts) stores
       && obs_eqb (model_proxy stored exts drop ms label) proxy
+  | CBucket7 blocks drop ms hne label bstore bproxy =>
+      obs_eqb (model_bucket blocks drop ms hne label) bstore
+      && obs_eqb (model_bucket_proxy blocks drop ms hne label) bproxy
   | CNop7 => true
   end.
 
@@ -156,5 +212,6 @@ Definition covers (label : str) (o : obs) : bool :=
 Definition pred_ok (c : case) : bool :=
   match c with
   | CLabels stored exts drop ms label stores proxy => forallb (covers label) stores && covers label proxy
+  | CBucket7 blocks drop ms hne label bstore bproxy => covers label bstore && covers label bproxy
   | CNop7 => true
   end.
